@@ -272,6 +272,9 @@ type World struct {
 	tainted  bool
 	hold     func(f *Flight) bool
 	dir      *director
+	yieldAll bool
+	yieldN   int
+	yields   []*yieldRec
 }
 
 func (w *World) ev(format string, args ...interface{}) {
@@ -627,6 +630,7 @@ func RunBubble(t *testing.T, ch *Chooser, cfg *RunConfig, tracing bool, scen Sce
 	defer func() {
 		verifhook.RecoveredPanicFn = nil
 		verifhook.AtFn = nil
+		verifhook.AtHVFn = nil
 		verifhook.ControllerFor = nil
 		if r := recover(); r != nil {
 			msg := fmt.Sprint(r)
@@ -654,6 +658,7 @@ func RunBubble(t *testing.T, ch *Chooser, cfg *RunConfig, tracing bool, scen Sce
 				w.atHook(p)
 			}
 		}
+		verifhook.AtHVFn = w.atHV
 		verifhook.ControllerFor = w.controllerFor
 		func() {
 			defer func() {
@@ -726,9 +731,7 @@ func (w *World) drainNode(n *Node) {
 
 func (w *World) shutdownAll() {
 	synctest.Wait()
-	if w.atHook != nil {
-		w.atHook = nil
-	}
+	w.yieldAll = false
 	w.releaseYields()
 	synctest.Wait()
 	for _, n := range w.nodes {
